@@ -38,6 +38,8 @@ pub const NONE: i64 = -1;
 pub trait Hook: Send + Sync {
     /// The calling thread performed `ev`; may block until the driver grants the next step.
     fn point(&self, ev: Ev);
+    /// Log `ev` without offering a context switch (used while a map shard guard is held).
+    fn note(&self, ev: Ev);
     /// Called before `lock()`; must return only when `is_locked()` is false and no other driven
     /// thread can run before the caller takes the lock.
     fn before_lock(&self, is_locked: &dyn Fn() -> bool);
@@ -68,6 +70,42 @@ pub fn active() -> bool {
 pub fn point(kind: &'static str, a: [i64; 6]) {
     if let Some(h) = hook() {
         h.point(Ev { kind, a });
+    }
+}
+
+#[inline]
+pub fn note(kind: &'static str, a: [i64; 6]) {
+    if let Some(h) = hook() {
+        h.note(Ev { kind, a });
+    }
+}
+#[inline]
+pub fn n2(kind: &'static str, a: i64, b: i64) {
+    note(kind, [a, b, NONE, NONE, NONE, NONE]);
+}
+#[inline]
+pub fn n3(kind: &'static str, a: i64, b: i64, c: i64) {
+    note(kind, [a, b, c, NONE, NONE, NONE]);
+}
+#[inline]
+pub fn n5(kind: &'static str, a: i64, b: i64, c: i64, d: i64, e: i64) {
+    note(kind, [a, b, c, d, e, NONE]);
+}
+#[inline]
+pub fn n6(kind: &'static str, a: i64, b: i64, c: i64, d: i64, e: i64, f: i64) {
+    note(kind, [a, b, c, d, e, f]);
+}
+
+pub(crate) fn status_code(status: &crate::TransactionStatus) -> i64 {
+    use crate::TransactionStatus as S;
+    match status {
+        S::Initial => 0,
+        S::Executing => 1,
+        S::Executed => 2,
+        S::Validating => 3,
+        S::Unconfirmed => 4,
+        S::Conflict => 5,
+        S::Finality => 6,
     }
 }
 
